@@ -1,10 +1,12 @@
 /- Operation table of the model driver: one import and one `++` entry per ops module. -/
+import Driver.Ops.C04
 import Driver.Ops.C07
 import Driver.Ops.C17
 namespace ZVD
 
 def allOps : OpTable :=
   [("ping", fun _ => pure "ok pong")]
+  ++ opsC04
   ++ opsC07
   ++ opsC17
 
